@@ -74,6 +74,8 @@ type c02tEnt struct {
 	tag  int
 	rank uint32
 	rej  bool
+	// marked by AdjRib.StaleAll since it was stored
+	stale bool
 }
 
 type c02tMeta struct {
@@ -82,16 +84,20 @@ type c02tMeta struct {
 }
 
 type c02tW struct {
-	t     *testing.T
-	o     *vOut
-	r     *vRand
-	log   *slog.Logger
-	src   []*PeerInfo // 1..4 used
-	pool  map[int][]*c02tPfx
-	colls [][]*c02tPfx
-	byTok map[string]*c02tPfx
-	seq   int
-	meta  map[*Path]c02tMeta
+	t   *testing.T
+	o   *vOut
+	r   *vRand
+	log *slog.Logger
+	src []*PeerInfo // 1..12: four plain sources and their near-duplicates (see setup)
+	// class of a source's address STRING (what the route-server view filter compares) and back
+	addrClass []int
+	classAddr []string
+	active    []int // the sources of the current history
+	pool      map[int][]*c02tPfx
+	colls     [][]*c02tPfx
+	byTok     map[string]*c02tPfx
+	seq       int
+	meta      map[*Path]c02tMeta
 
 	tm  *TableManager
 	adj *AdjRib
@@ -143,17 +149,63 @@ func c02tLoc(fam int) int {
 }
 func c02tAdj(fam int) int { return c02tLoc(fam) + 2 }
 
+// table ids: 1, 2 = Loc-RIB IPv4 / IPv6; 3, 4, 5 = the AdjRib's IPv4 unicast / IPv6 unicast / IPv4 multicast tables
+var c02tAdjTabs = []int{3, 4, 5}
+
+func c02tTabFamily(tab int) bgp.Family {
+	switch tab {
+	case 2, 4:
+		return bgp.RF_IPv6_UC
+	case 5:
+		return bgp.RF_IPv4_MC
+	}
+	return bgp.RF_IPv4_UC
+}
+
 func (w *c02tW) setup() {
 	w.log = slog.New(slog.NewTextHandler(io.Discard, nil))
-	w.src = make([]*PeerInfo, 5)
-	for i := 1; i <= 4; i++ {
-		w.src[i] = &PeerInfo{
-			AS: uint32(65000 + i), LocalAS: 64512,
-			ID:      netip.AddrFrom4([4]byte{byte(i), byte(i), byte(i), byte(i)}),
-			LocalID: netip.MustParseAddr("9.9.9.9"),
-			Address: netip.AddrFrom4([4]byte{10, 0, 0, byte(i)}),
+	// Source identity is exactly what PeerInfo.Equal compares: AS, router id, local id and the
+	// address INCLUDING an IPv6 zone.  Besides four plain sources the pool holds near-duplicates that
+	// differ from another source in exactly one of them; every pair must stay two sources
+	// ("one path per (source, path-id)").
+	mkSrc := func(as uint32, id, addr, localID string) *PeerInfo {
+		return &PeerInfo{AS: as, LocalAS: 64512, ID: netip.MustParseAddr(id), LocalID: netip.MustParseAddr(localID), Address: netip.MustParseAddr(addr)}
+	}
+	w.src = []*PeerInfo{nil,
+		mkSrc(65001, "1.1.1.1", "10.0.0.1", "9.9.9.9"), // 1: the peer whose routes also go through the Adj-RIB-In
+		mkSrc(65002, "2.2.2.2", "10.0.0.2", "9.9.9.9"),
+		mkSrc(65003, "3.3.3.3", "10.0.0.3", "9.9.9.9"),
+		mkSrc(65004, "4.4.4.4", "10.0.0.4", "9.9.9.9"),
+		mkSrc(65005, "5.5.5.5", "fe80::1%eth0", "9.9.9.9"),    // 5, 6, 7: one link-local address on two interfaces
+		mkSrc(65005, "5.5.5.5", "fe80::1%eth1", "9.9.9.9"),    //          (unnumbered peering) and without zone
+		mkSrc(65005, "5.5.5.5", "fe80::1", "9.9.9.9"),         //
+		mkSrc(65001, "1.1.1.1", "::ffff:10.0.0.1", "9.9.9.9"), // 8: source 1's address IPv4-mapped
+		mkSrc(65009, "2.2.2.2", "10.0.0.2", "9.9.9.9"),        // 9: source 2 with another AS
+		mkSrc(65002, "2.2.2.20", "10.0.0.2", "9.9.9.9"),       // 10: source 2 with another router id
+		mkSrc(65002, "2.2.2.2", "10.0.0.2", "9.9.9.8"),        // 11: source 2 with another local id
+		mkSrc(65003, "3.3.3.3", "10.0.0.33", "9.9.9.9"),       // 12: source 3's router id and AS at another address
+	}
+	w.addrClass = make([]int, len(w.src))
+	w.classAddr = []string{GLOBAL_RIB_NAME}
+	for i := 1; i < len(w.src); i++ {
+		a := w.src[i].Address.String()
+		for c := 1; c < len(w.classAddr); c++ {
+			if w.classAddr[c] == a {
+				w.addrClass[i] = c
+			}
+		}
+		if w.addrClass[i] == 0 {
+			w.classAddr = append(w.classAddr, a)
+			w.addrClass[i] = len(w.classAddr) - 1
+		}
+		w.o.op("src %d %d", i, w.addrClass[i])
+		for j := 1; j < i; j++ {
+			if w.src[i].Equal(w.src[j]) {
+				w.o.fail("c02t-source-conflated", fmt.Sprintf("PeerInfo.Equal says sources %d (%+v) and %d (%+v) are one", j, *w.src[j], i, *w.src[i]))
+			}
 		}
 	}
+	w.active = []int{1, 2, 3, 4}
 	w.pool = map[int][]*c02tPfx{}
 	w.byTok = map[string]*c02tPfx{}
 	w.meta = map[*Path]c02tMeta{}
@@ -272,15 +324,17 @@ func (w *c02tW) reset() {
 	w.held = w.held[:0]
 	fams := []bgp.Family{bgp.RF_IPv4_UC, bgp.RF_IPv6_UC}
 	w.tm = NewTableManager(w.log, fams)
-	w.adj = NewAdjRib(w.log, fams)
-	w.want = map[int]map[string][]c02tEnt{1: {}, 2: {}, 3: {}, 4: {}}
-	w.acc = map[int]int{3: 0, 4: 0}
+	w.adj = NewAdjRib(w.log, []bgp.Family{bgp.RF_IPv4_UC, bgp.RF_IPv6_UC, bgp.RF_IPv4_MC})
+	w.want = map[int]map[string][]c02tEnt{1: {}, 2: {}, 3: {}, 4: {}, 5: {}}
+	w.acc = map[int]int{3: 0, 4: 0, 5: 0}
+	w.active = []int{1, 2, 3, 4}
 	w.leak = map[int]map[string]int{1: {}, 2: {}}
 	w.hist = w.hist[:0]
 	w.o.op("new 1 0")
 	w.o.op("new 2 0")
 	w.o.op("new 3 1")
 	w.o.op("new 4 1")
+	w.o.op("new 5 1")
 }
 
 func (w *c02tW) note(format string, a ...any) {
@@ -299,7 +353,10 @@ func (w *c02tW) fail(class string, format string, a ...any) {
 }
 
 func (w *c02tW) newPath(p *c02tPfx, src int, rid uint32, rank uint32, withdraw bool) *Path {
-	fam := c02tFamily(p.fam)
+	return w.newPathF(c02tFamily(p.fam), p, src, rid, rank, withdraw)
+}
+
+func (w *c02tW) newPathF(fam bgp.Family, p *c02tPfx, src int, rid uint32, rank uint32, withdraw bool) *Path {
 	var attrs []bgp.PathAttributeInterface
 	if !withdraw {
 		attrs = append(attrs, bgp.NewPathAttributeOrigin(0))
@@ -328,9 +385,10 @@ func (w *c02tW) announce(p *c02tPfx, src int, rid uint32, rej bool) {
 	w.o.op("ann %d %s %d %d %d %d 0", lt, p.tok, src, rid, rank, tag)
 	w.movesInPlace(lt, p, src, rid)
 	us := w.tm.Update(path)
-	w.wantPut(lt, p, c02tEnt{src, rid, tag, rank, false}, false)
+	w.wantPut(lt, p, c02tEnt{src: src, rid: rid, tag: tag, rank: rank}, false)
 	w.recheck()
 	w.holdUpdates(p.show, us)
+	w.checkOthers("announcement", p, src, rid)
 	w.o.stat("op_announce", 1)
 	if src == 1 {
 		at := c02tAdj(p.fam)
@@ -343,8 +401,40 @@ func (w *c02tW) announce(p *c02tPfx, src int, rid uint32, rej bool) {
 		}
 		w.o.op("ann %d %s %d %d %d %d %d", at, p.tok, src, rid, rank, tag, rj)
 		w.adj.Update([]*Path{ap})
-		w.wantPut(at, p, c02tEnt{src, rid, tag, rank, rej}, true)
+		w.wantPut(at, p, c02tEnt{src: src, rid: rid, tag: tag, rank: rank, rej: rej}, true)
 		w.recheck()
+	}
+}
+
+// "one path per (source, path-id)": after an operation of one source on a destination, the paths the
+// op log holds for it — in particular those of the OTHER sources, near-duplicates included — must all
+// be there, each once, and nothing else
+func (w *c02tW) checkOthers(what string, p *c02tPfx, src int, rid uint32) {
+	lt := c02tLoc(p.fam)
+	d := w.tm.GetDestination(w.newPath(p, src, rid, 0, true))
+	got := map[[2]int]int{}
+	if d != nil {
+		for _, x := range d.knownPathList {
+			if m, ok := w.meta[x.root()]; ok {
+				if _, dup := got[[2]int{m.src, int(m.rid)}]; dup {
+					w.fail("c02t-source-conflated", "%s of source %d rid %d on %s: two paths of source %d path-id %d", what, src, rid, p.pfx, m.src, m.rid)
+				}
+				got[[2]int{m.src, int(m.rid)}] = m.tag
+			}
+		}
+	}
+	for _, e := range w.want[lt][p.show] {
+		if tag, ok := got[[2]int{e.src, int(e.rid)}]; !ok || tag != e.tag {
+			cls := "c02t-content"
+			if e.src != src {
+				cls = "c02t-source-conflated"
+			}
+			w.fail(cls, "%s of source %d (%+v) rid %d on %s: the path of source %d (%+v) rid %d tag %d is gone or replaced (now tag %d, present %v)",
+				what, src, *w.src[src], rid, p.pfx, e.src, *w.src[e.src], e.rid, e.tag, tag, ok)
+		}
+	}
+	if len(got) > len(w.want[lt][p.show]) {
+		w.fail("c02t-content", "%s of source %d rid %d on %s: %d paths stored, the op log says %d", what, src, rid, p.pfx, len(got), len(w.want[lt][p.show]))
 	}
 }
 
@@ -442,6 +532,7 @@ func (w *c02tW) withdraw(p *c02tPfx, src int, rid uint32, dropped bool) {
 	hit := w.wantDel(lt, p, src, rid, false)
 	w.recheck()
 	w.holdUpdates(p.show, us)
+	w.checkOthers("withdrawal", p, src, rid)
 	if hit {
 		if !dropped {
 			w.leak[lt][p.show]++
@@ -461,11 +552,16 @@ func (w *c02tW) peerDown(src int) {
 	fams := []bgp.Family{bgp.RF_IPv4_UC, bgp.RF_IPv6_UC}
 	var wds []*Path
 	if src == 1 {
-		wds = w.adj.Drop(fams)
-		w.o.op("new 3 1")
-		w.o.op("new 4 1")
-		w.want[3], w.want[4] = map[string][]c02tEnt{}, map[string][]c02tEnt{}
-		w.acc[3], w.acc[4] = 0, 0
+		for _, wd := range w.adj.Drop([]bgp.Family{bgp.RF_IPv4_UC, bgp.RF_IPv6_UC, bgp.RF_IPv4_MC}) {
+			if wd.GetFamily() != bgp.RF_IPv4_MC {
+				wds = append(wds, wd)
+			}
+		}
+		w.o.op("adjdrop 3 3 4 5")
+		for _, tab := range c02tAdjTabs {
+			w.want[tab] = map[string][]c02tEnt{}
+			w.acc[tab] = 0
+		}
 		// rejected paths never reached the Loc-RIB in the server; here they did (same source and
 		// path id), so they are withdrawn all the same
 	} else {
@@ -482,6 +578,9 @@ func (w *c02tW) peerDown(src int) {
 		if p == nil {
 			w.fail("c02t-unknown-prefix", "peer-down produced a withdrawal for %s which was never announced", pp)
 			continue
+		}
+		if m, ok := w.meta[wd.root()]; ok && m.src != src {
+			w.fail("c02t-source-conflated", "peer-down of source %d (%+v) lists the path of source %d (%+v) on %s for withdrawal", src, *w.src[src], m.src, *w.src[m.src], pp)
 		}
 		w.o.op("wd %d %s %d %d 1", c02tLoc(p.fam), p.tok, src, wd.RemoteID())
 		w.tm.Update(wd)
@@ -505,7 +604,7 @@ func (w *c02tW) peerDown(src int) {
 // ---------------------------------------------------------------- rendering the implementation's answers
 
 func (w *c02tW) pathStr(p *Path) string {
-	m, ok := w.meta[p]
+	m, ok := w.meta[p.root()] // StaleAll / MarkLLGRStaleOrDrop store clones of what was announced
 	if !ok {
 		return "unknown-path"
 	}
@@ -551,6 +650,8 @@ func (w *c02tW) table(tab int) *Table {
 		return t
 	case 3:
 		return w.adj.table[bgp.RF_IPv4_UC]
+	case 5:
+		return w.adj.table[bgp.RF_IPv4_MC]
 	}
 	return w.adj.table[bgp.RF_IPv6_UC]
 }
@@ -568,14 +669,15 @@ func (w *c02tW) viewID(view int) string {
 	if view == 0 {
 		return GLOBAL_RIB_NAME
 	}
-	return w.src[view].Address.String()
+	return w.classAddr[view] // views are numbered by address string
 }
 
 // expected path strings (without local id) of one destination under a view, best first
-func c02tExpect(l []c02tEnt, view int, adj bool) []string {
+func (w *c02tW) expect(l []c02tEnt, view int, adj bool) []string {
 	var f []c02tEnt
 	for _, e := range l {
-		if !adj && view != 0 && e.src == view {
+		// the view filter compares address strings: every source at that address is filtered
+		if !adj && view != 0 && w.addrClass[e.src] == view {
 			continue
 		}
 		f = append(f, e)
@@ -661,7 +763,7 @@ func (w *c02tW) askGet(tab int, p *c02tPfx) {
 	ans := "nil"
 	if d != nil {
 		_, ans = w.destStr(d)
-		w.checkDests("GetDestination", tab, []*destination{d}, map[string][]string{p.show: c02tExpect(w.want[tab][p.show], 0, adj)}, adj)
+		w.checkDests("GetDestination", tab, []*destination{d}, map[string][]string{p.show: w.expect(w.want[tab][p.show], 0, adj)}, adj)
 		if show, _ := w.destStr(d); show != p.show {
 			w.fail("c02t-wrong-destination", "GetDestination(%s) on table %d returned the destination of %s", p.show, tab, show)
 		}
@@ -701,7 +803,7 @@ func (w *c02tW) askList(tab int) {
 	ds := t.GetDestinations()
 	want := map[string][]string{}
 	for show, l := range w.want[tab] {
-		want[show] = c02tExpect(l, 0, adj)
+		want[show] = w.expect(l, 0, adj)
 	}
 	w.checkDests("GetDestinations", tab, ds, want, adj)
 	w.o.ask(w.listing(ds), "list %d", tab)
@@ -717,7 +819,7 @@ func (w *c02tW) askInfo(tab int, view int) {
 	info := t.Info(TableInfoOptions{ID: w.viewID(view)})
 	nd, np := 0, 0
 	for _, l := range w.want[tab] {
-		if n := len(c02tExpect(l, view, false)); n != 0 {
+		if n := len(w.expect(l, view, false)); n != 0 {
 			nd++
 			np += n
 		}
@@ -746,7 +848,7 @@ func (w *c02tW) askPaths(tab int, view int) {
 	ps := w.tm.GetPathList(w.viewID(view), 0, fam)
 	var exp []string
 	for show, l := range w.want[tab] {
-		for _, s := range c02tExpect(l, view, false) {
+		for _, s := range w.expect(l, view, false) {
 			exp = append(exp, show+"="+s)
 		}
 	}
@@ -766,7 +868,7 @@ func (w *c02tW) askPaths(tab int, view int) {
 	bs := w.tm.GetBestPathList(w.viewID(view), 0, fam)
 	exp = exp[:0]
 	for show, l := range w.want[tab] {
-		if e := c02tExpect(l, view, false); len(e) > 0 {
+		if e := w.expect(l, view, false); len(e) > 0 {
 			exp = append(exp, show+"="+e[0])
 		}
 	}
@@ -785,7 +887,7 @@ func (w *c02tW) askPaths(tab int, view int) {
 }
 
 func (w *c02tW) askAdjInfo(tab int) {
-	rf := c02tFamily(c02tFamOf(tab))
+	rf := c02tTabFamily(tab)
 	fams := []bgp.Family{rf}
 	ti, err := w.adj.TableInfo(rf)
 	if err != nil {
@@ -926,7 +1028,7 @@ func c02tLookupOpt(opt int) apiutil.LookupOption {
 // expected result of Select, brute force over the oracle map
 func (w *c02tW) expectSelect(tab int, view int, adj, best bool, qs []c02tQ) map[string][]string {
 	sel := func(l []c02tEnt) []string {
-		e := c02tExpect(l, view, adj)
+		e := w.expect(l, view, adj)
 		if best && !adj && len(e) > 1 {
 			e = e[:1]
 		}
@@ -1018,7 +1120,7 @@ func (w *c02tW) askSelectQ(tab int, nq int, fixed []c02tQ) {
 	view, best := 0, false
 	if !adj {
 		if w.r.chance(35) {
-			view = 1 + w.r.intn(4)
+			view = w.randView()
 		}
 		best = w.r.chance(30)
 	}
@@ -1044,7 +1146,7 @@ func (w *c02tW) askSelectQ(tab int, nq int, fixed []c02tQ) {
 			}
 		}()
 		if adj {
-			r, err = w.adj.Select(c02tFamily(fam), false, opt)
+			r, err = w.adj.Select(c02tTabFamily(tab), false, opt)
 		} else {
 			r, err = w.table(tab).Select(opt)
 		}
@@ -1094,16 +1196,219 @@ func (w *c02tW) askSelectQ(tab int, nq int, fixed []c02tQ) {
 	}
 }
 
+// a route-server view: the address class of one of the history's sources
+func (w *c02tW) randView() int { return w.addrClass[w.active[w.r.intn(len(w.active))]] }
+
+// the IPv4-multicast table of the AdjRib (a third family beside the two that also feed the Loc-RIB)
+func (w *c02tW) askMC(full bool) {
+	w.askAdjInfo(5)
+	if full || w.r.chance(50) {
+		w.askList(5)
+		w.askSelect(5, 0)
+	}
+}
+
+// ---------------------------------------------------------------- the multi-family Adj-RIB-In
+
+func (w *c02tW) mcAnnounce(p *c02tPfx, rid uint32, rej bool) {
+	w.seq++
+	tag := w.seq
+	rank := uint32((uint64(tag)*2654435761)%(1<<30)) + 1
+	w.note("announce (ipv4-multicast, Adj-RIB-In only) %s rid=%d tag=%d", p.pfx, rid, tag)
+	ap := w.newPathF(bgp.RF_IPv4_MC, p, 1, rid, rank, false)
+	ap.SetRejected(rej)
+	w.meta[ap] = c02tMeta{1, tag, rid}
+	rj := 0
+	if rej {
+		rj = 1
+	}
+	w.o.op("ann 5 %s 1 %d %d %d %d", p.tok, rid, rank, tag, rj)
+	w.adj.Update([]*Path{ap})
+	w.wantPut(5, p, c02tEnt{src: 1, rid: rid, tag: tag, rank: rank, rej: rej}, true)
+	w.recheck()
+	w.o.stat("op_mc_announce", 1)
+}
+
+func (w *c02tW) mcWithdraw(p *c02tPfx, rid uint32) {
+	w.note("withdraw (ipv4-multicast, Adj-RIB-In only) %s rid=%d", p.pfx, rid)
+	ap := w.newPathF(bgp.RF_IPv4_MC, p, 1, rid, 0, true)
+	w.o.op("wd 5 %s 1 %d 1", p.tok, rid)
+	w.adj.Update([]*Path{ap})
+	w.wantDel(5, p, 1, rid, true)
+	w.recheck()
+	w.o.stat("op_mc_withdraw", 1)
+}
+
+// withdrawals produced by a partial Adj-RIB-In operation go on to the Loc-RIB (IPv4 / IPv6 unicast only)
+func (w *c02tW) propagate(what string, wds []*Path) {
+	for _, wd := range wds {
+		if wd.GetFamily() == bgp.RF_IPv4_MC {
+			continue
+		}
+		_, tok, _ := c02tTok(nlriToPrefix(wd.GetNlri()))
+		p := w.byTok[tok]
+		if p == nil {
+			w.fail("c02t-unknown-prefix", "%s produced a withdrawal for %s which was never announced", what, nlriToPrefix(wd.GetNlri()))
+			continue
+		}
+		w.o.op("wd %d %s 1 %d 1", c02tLoc(p.fam), p.tok, wd.RemoteID())
+		w.tm.Update(wd)
+		w.wantDel(c02tLoc(p.fam), p, 1, wd.RemoteID(), false)
+		w.recheck()
+	}
+}
+
+// Drop / StaleAll / DropStale / MarkLLGRStaleOrDrop on a SUBSET of the AdjRib's families: the families
+// named lose / keep exactly what the op log says, and the others keep content AND counters.
+//
+//	kind 0 Drop, 1 StaleAll, 2 DropStale, 3 MarkLLGRStaleOrDrop (no path carries NO_LLGR: nothing may change)
+func (w *c02tW) adjPartial(kind int, tabs []int) {
+	fams := make([]bgp.Family, len(tabs))
+	for i, tab := range tabs {
+		fams[i] = c02tTabFamily(tab)
+	}
+	name := []string{"Drop", "StaleAll", "DropStale", "MarkLLGRStaleOrDrop"}[kind]
+	tabsTok := fmt.Sprint(len(tabs))
+	for _, tab := range tabs {
+		tabsTok += fmt.Sprintf(" %d", tab)
+	}
+	w.note("AdjRib.%s(%v)", name, fams)
+	w.o.stat("op_adj_partial_"+name, 1)
+	if len(tabs) < len(c02tAdjTabs) {
+		w.o.stat("op_adj_partial_on_a_subset_of_families", 1)
+	}
+	count := func(pred func(e c02tEnt) bool) int {
+		n := 0
+		for _, tab := range tabs {
+			for _, l := range w.want[tab] {
+				for _, e := range l {
+					if pred(e) {
+						n++
+					}
+				}
+			}
+		}
+		return n
+	}
+	var out []*Path
+	exp := 0
+	switch kind {
+	case 0:
+		exp = count(func(c02tEnt) bool { return true })
+		out = w.adj.Drop(fams)
+		w.o.op("adjdrop %s", tabsTok)
+		for _, tab := range tabs {
+			w.want[tab] = map[string][]c02tEnt{}
+			w.acc[tab] = 0
+		}
+		w.recheck()
+		w.propagate("AdjRib.Drop", out)
+	case 1:
+		exp = count(func(e c02tEnt) bool { return !e.rej })
+		out = w.adj.StaleAll(fams)
+		w.o.op("adjstale %s", tabsTok)
+		for _, tab := range tabs {
+			for _, l := range w.want[tab] {
+				for i := range l {
+					l[i].stale = true
+				}
+			}
+		}
+		w.recheck()
+	case 2:
+		exp = count(func(e c02tEnt) bool { return e.stale })
+		w.o.stat("adj_dropstale_swept_paths", exp)
+		out = w.adj.DropStale(fams)
+		w.o.op("adjdropstale %s", tabsTok)
+		for _, tab := range tabs {
+			for show, l := range w.want[tab] {
+				var keep []c02tEnt
+				for _, e := range l {
+					if e.stale {
+						if !e.rej {
+							w.acc[tab]--
+						}
+						continue
+					}
+					keep = append(keep, e)
+				}
+				if len(keep) == 0 {
+					delete(w.want[tab], show)
+				} else {
+					w.want[tab][show] = keep
+				}
+			}
+		}
+		w.recheck()
+		w.propagate("AdjRib.DropStale", out)
+	case 3:
+		exp = count(func(e c02tEnt) bool { return !e.rej })
+		out = w.adj.MarkLLGRStaleOrDrop(fams)
+		w.recheck()
+	}
+	if len(out) != exp {
+		w.fail("c02t-adj-partial-result", "AdjRib.%s(%v) returned %d paths, the op log says %d", name, fams, len(out), exp)
+	}
+	for _, x := range out {
+		inFams := false
+		for _, f := range fams {
+			inFams = inFams || x.GetFamily() == f
+		}
+		if !inFams {
+			w.fail("c02t-adj-partial-result", "AdjRib.%s(%v) returned a path of family %s", name, fams, x.GetFamily())
+		}
+	}
+	held := out
+	w.hold("AdjRib."+name, fmt.Sprint(fams), func() string { return w.pathsStr(held) })
+	// every family of the AdjRib, touched or not: content and counters against the op log and a recount
+	for _, tab := range c02tAdjTabs {
+		w.askAdjInfo(tab)
+		w.askList(tab)
+	}
+	w.askSelect(3, 0)
+	w.askSelect(4, 0)
+}
+
+func (w *c02tW) anyStale() bool {
+	for _, tab := range c02tAdjTabs {
+		for _, l := range w.want[tab] {
+			for _, e := range l {
+				if e.stale {
+					return true
+				}
+			}
+		}
+	}
+	return false
+}
+
+func (w *c02tW) randAdjSubset() []int {
+	for {
+		var tabs []int
+		for _, tab := range c02tAdjTabs {
+			if w.r.chance(45) {
+				tabs = append(tabs, tab)
+			}
+		}
+		if len(tabs) > 0 {
+			return tabs
+		}
+	}
+}
+
 func (w *c02tW) askAll(full bool) {
+	if full || w.r.chance(15) {
+		w.askMC(full)
+	}
 	for _, fam := range []int{4, 6} {
 		lt, at := c02tLoc(fam), c02tAdj(fam)
 		w.askInfo(lt, 0)
 		if full || w.r.chance(25) {
 			w.askList(lt)
 			w.askList(at)
-			w.askPaths(lt, w.r.pick(0, 0, 1, 2, 3))
+			w.askPaths(lt, w.r.pick(0, 0, w.randView(), w.randView()))
 			w.askAdjInfo(at)
-			w.askInfo(lt, 1+w.r.intn(4))
+			w.askInfo(lt, w.randView())
 			w.askSelect(lt, 0)
 			w.askSelect(at, 0)
 		}
@@ -1191,12 +1496,40 @@ func (w *c02tW) randomHistory(n int) {
 	for i := 0; i < 3; i++ {
 		w.hot = append(w.hot, w.pick())
 	}
+	// the sources of this history: plain ones, or a stratum of near-duplicates (same address in two
+	// zones / without zone; one address under several AS, router ids, local ids; IPv4-mapped; same
+	// router id at two addresses)
+	strata := [][]int{{1, 2, 3, 4}, {1, 5, 6, 7}, {1, 2, 9, 10, 11}, {1, 8, 3, 12}, {5, 6, 2, 9}, {1, 6, 7, 8, 10, 11}}
+	w.active = strata[w.r.intn(len(strata))]
+	w.note("sources %v", w.active)
+	w.o.stat(fmt.Sprintf("history_sources_%v", w.active), 1)
 	for i := 0; i < n; i++ {
 		p := w.pick()
-		src := 1 + w.r.intn(4)
+		src := w.active[w.r.intn(len(w.active))]
 		rid := uint32(w.r.pick(0, 0, 1, 2))
 		switch k := w.r.intn(100); {
-		case k < 56:
+		case k < 6:
+			kind := w.r.intn(4)
+			if w.anyStale() && w.r.chance(50) {
+				kind = 2 // the sweep after a StaleAll
+			}
+			w.adjPartial(kind, w.randAdjSubset())
+		case k < 12:
+			q := w.pool[4][w.r.intn(len(w.pool[4]))]
+			if w.r.chance(40) { // aim at a multicast destination that exists
+				for _, x := range w.pool[4] {
+					if len(w.want[5][x.show]) > 0 && w.r.chance(30) {
+						q = x
+					}
+				}
+			}
+			if l := w.want[5][q.show]; len(l) > 0 && w.r.chance(60) {
+				w.mcWithdraw(q, l[w.r.intn(len(l))].rid)
+			} else {
+				w.mcAnnounce(q, rid, w.r.chance(25))
+			}
+			w.askGet(5, q)
+		case k < 60:
 			if q, e, ok := w.pickPresent(); ok && w.r.chance(50) {
 				p = q // one more path for a destination that exists …
 				if w.r.chance(50) {
@@ -1227,6 +1560,9 @@ func (w *c02tW) randomHistory(n int) {
 		for _, p := range w.pool[fam] {
 			w.askGet(c02tLoc(fam), p)
 			w.askGet(c02tAdj(fam), p)
+			if fam == 4 {
+				w.askGet(5, p)
+			}
 		}
 	}
 }
@@ -1383,6 +1719,57 @@ func (w *c02tW) corpus() {
 	})
 }
 
+// corpus, second part: the classes of the seeded changes C02-K and C02-L, deterministic
+func (w *c02tW) corpus2() {
+	// 5. near-duplicate sources on one destination: each keeps its own path through announcements,
+	//    replacements, withdrawals and a peer-down of the others
+	for _, set := range [][]int{{5, 6, 7}, {1, 8}, {2, 9, 10, 11}, {3, 12}} {
+		set := set
+		w.guarded(func() {
+			w.reset()
+			w.active = set
+			w.note("corpus 5: near-duplicate sources %v", set)
+			for _, p := range []*c02tPfx{w.pool[4][5], w.colls[0][0]} {
+				for _, s := range set {
+					w.announce(p, s, 0, false)
+				}
+				w.askGroup(p)
+				w.askAll(true)
+				w.announce(p, set[len(set)-1], 0, false) // replacement by the last leaves the others
+				w.withdraw(p, set[0], 0, true)           // withdrawal by the first leaves the others
+				w.askGroup(p)
+				w.askAll(true)
+				w.announce(p, set[0], 0, false)
+			}
+			w.peerDown(set[len(set)-1])
+			w.askAll(true)
+		})
+	}
+	// 6. partial operations on the three-family Adj-RIB-In
+	w.guarded(func() {
+		w.reset()
+		w.note("corpus 6: Drop / StaleAll / DropStale on a subset of the AdjRib's families")
+		for _, p := range []*c02tPfx{w.pool[4][5], w.pool[4][8], w.pool[6][3], w.colls[0][0], w.colls[0][1]} {
+			w.announce(p, 1, 0, false)
+			w.announce(p, 1, 1, p.fam == 6)
+			if p.fam == 4 {
+				w.mcAnnounce(p, 0, false)
+				w.mcAnnounce(p, 2, true)
+			}
+		}
+		w.askAll(true)
+		w.adjPartial(1, []int{3})             // graceful restart keeps IPv4 …
+		w.adjPartial(0, []int{4})             // … and drops IPv6
+		w.announce(w.pool[4][5], 1, 0, false) // one route comes back fresh
+		w.adjPartial(3, []int{5})
+		w.adjPartial(2, []int{3}) // the sweep
+		w.adjPartial(1, []int{3, 5})
+		w.adjPartial(2, []int{5})
+		w.adjPartial(0, []int{3, 5})
+		w.askAll(true)
+	})
+}
+
 func TestVerifC02T(t *testing.T) {
 	o := vOpen(t)
 	defer o.close()
@@ -1391,6 +1778,7 @@ func TestVerifC02T(t *testing.T) {
 	o.sample(fmt.Sprintf("pool: %d IPv4 + %d IPv6 prefixes, %d collision groups; e.g. %s and %s share key %d",
 		len(w.pool[4]), len(w.pool[6]), len(w.colls), c02tCollisions[0][0], c02tCollisions[0][1], w.colls[0][0].key))
 	w.corpus()
+	w.corpus2()
 	w.malformedKeys()
 	w.collisionScenarios()
 	histories, steps := 40, 60
